@@ -639,11 +639,13 @@ func c19CopyChain(p *Program, r *Reporter, a *c19Anchors, F *ssa.Function, at ss
 		"the ref stored at the destination is the job's ref", "the ref stored at the destination ("+c19Path(dRef)+") is not the job's ref "+refPath)
 
 	// (2) digest approval
-	known, val, hm := BoolCallFact(at.Block(), func(c CallSite) bool { return c.IsStatic("perkeep.org/pkg/blob", "Ref", "HashMatches") })
+	known, val, hm := BoolCallFact(at.Block(), func(c CallSite) bool {
+		return c.IsStatic("perkeep.org/pkg/blob", "Ref", "HashMatches") || c.IsStatic("perkeep.org/pkg/blob", "SizedRef", "HashMatches")
+	})
 	var h ssa.Value
 	if !known || !val {
 		r.Violation("Y-dequeue", key+"#hash-match", site, "success is not under the fact HashMatches(...)==true: corrupt source bytes would be written and the row dequeued")
-	} else if got := c19Path(hm.Args()[0]); got != refPath {
+	} else if got := c19Path(hm.Args()[0]); got != refPath && got != job.Name() {
 		r.Violation("Y-dequeue", key+"#hash-match", p.Pos(hm.Pos()), "HashMatches is evaluated on "+got+", not on the job's ref "+refPath)
 	} else {
 		h = originValue(hm.Args()[1])
@@ -711,8 +713,8 @@ func c19CopyChain(p *Program, r *Reporter, a *c19Anchors, F *ssa.Function, at ss
 				continue
 			}
 		}
-		if h != nil && !c19FlowsFrom(rd, h) {
-			bwhy = "the reader of the full read does not pass through the hash that HashMatches approves (digest of other bytes than those written)"
+		if h != nil && !c19FlowsFrom(rd, h) && !c19HashFedFrom(F, h, b, hm) {
+			bwhy = "the hash that HashMatches approves is fed neither by the reader of the full read nor by a Write of the filled buffer (digest of other bytes than those written)"
 			continue
 		}
 		bytesOK, buf = true, b
@@ -779,6 +781,23 @@ func c19CopyChain(p *Program, r *Reporter, a *c19Anchors, F *ssa.Function, at ss
 	default:
 		r.Violation("Y-dequeue", key+"#dest-size", site, "no chain of dominating equality facts ties the size acknowledged by the destination to the number of bytes sent")
 	}
+}
+
+// c19HashFedFrom: h.Write(buf) (buf being the buffer of the checked full read)
+// executed before HashMatches is evaluated.
+func c19HashFedFrom(F *ssa.Function, h, buf ssa.Value, hm CallSite) bool {
+	for _, c := range CallsIn(F, false) {
+		if c.Value() == nil || c.MethodName() != "Write" || len(c.Args()) != 2 {
+			continue
+		}
+		if originValue(c.Args()[0]) != h || originValue(c.Args()[1]) != buf {
+			continue
+		}
+		if Precedes(c.Instr, hm.Instr) {
+			return true
+		}
+	}
+	return false
 }
 
 // c19IsSizeOf reports whether v is the Size field of SizedRef value sr (an
@@ -1234,11 +1253,13 @@ func c19HubRule(p *Program, r *Reporter, n *types.Named, notify, addHook *ssa.Fu
 		var join *ssa.Call
 		for _, c := range CallsIn(notify, false) {
 			if c.Value() != nil && (c.IsStatic("go4.org/syncutil", "Group", "Err") || c.IsStatic("go4.org/syncutil", "Group", "Wait") || c.IsStatic("golang.org/x/sync/errgroup", "Group", "Wait")) && sameOrigin(c.Args()[0], grp) {
-				join = c.Value()
+				if _, hasErr, _ := ErrValue(c.Value()); hasErr {
+					join = c.Value()
+				}
 			}
 		}
 		if join == nil {
-			r.Violation("Y-enqueue", construct, p.Pos(hc.Pos()), "the group running the hooks is never joined for its error")
+			r.Violation("Y-enqueue", construct, p.Pos(hc.Pos()), "the group running the hooks is never joined for its error (Err/Wait returning the first hook error)")
 			continue
 		}
 		bad := ""
